@@ -451,8 +451,10 @@ Section Loops.
       match zlookup k m1 with
       | None => loop2 m1 r (out ++ [(0, v2)])
       | Some e1 =>
+        (* this guard is still in the source for every form of the first loop (it cannot fire: the split
+           was popped from the copy if tree1 has it) *)
         do i1 <- info1 e1 ;;
-        do v1 <- strict_value p i1 ;;
+        do v1 <- strict_value Current i1 ;;
         loop2 m1 r (out ++ [(v1, v2)])
       end
     end.
